@@ -152,7 +152,9 @@ func (nc *netConn) Read(p []byte) (int, error) {
 		if err != nil {
 			return n, err
 		}
-		if n == 0 {
+		// Empty messages are skipped. With an empty p nothing can be
+		// read: looping would never end while a message is pending.
+		if n == 0 && len(p) > 0 {
 			continue
 		}
 		return n, nil
